@@ -9,6 +9,9 @@ RULE = ("RIB populations built from nested and sibling prefix families (random w
         "store's stride boundaries, host routes), 2-4 peers (registered with/without remote AS, unregistered), active / withdrawn / session-lost "
         "routes, a share of cases with multicast routes; 4-10 GET queries per case over the parameter grammar (include, details, select/discard "
         "with as_path / peer_as / community, filter_op, sort, format; valid, invalid, duplicated, unknown, bracket and percent-encoding quirks; "
+        "~70% of the announcements carry 1-4 DIFFERENT community attributes (COMMUNITIES, EXTENDED, IPv6 extended, LARGE; 1-3 members each; in type-code order or shuffled, "
+        "sometimes in front of ORIGIN), and ~70% of the cases get 2-5 queries whose filters have a chosen truth value for one stored route: a community out of its first / middle / last "
+        "community attribute (first / last member; names, AS:tag, hex, rt:/ro:, large) or one it does not carry, its AS path or another, its peer AS or another, select and discard, any and all; "
         "configured limits; in ~45% of the cases 1-3 reconfigurations of the limits while the API object exists, each followed by a "
         "moreSpecifics query around the new limit); a case is non-trivial when at least one answer is a 200 with a non-empty section; distinct = distinct case text")
 TRUSTED_BASE = [
@@ -24,24 +27,154 @@ TRUSTED_BASE = [
 ASSUMPTIONS = [
     "the textual form of the queried prefix is not modelled: a request carries address bits and a length, the harness renders them with std's Display; "
     "Prefix::from_str is taken to reject exactly a length beyond the family's and non-zero host bits",
+    "community attributes of the populations are well-formed (length a multiple of the member size); a malformed one is C04's subject",
     "lossy UTF-8 conversion of decoded parameter text is the identity in the model (never creates or removes an ASCII byte, so no keyword or number is affected)",
-    "community text: dotted-quad global administrators (rt:1.2.3.4:5) and non-ASCII case folding are not modelled and not generated",
+    "community text: dotted-quad global administrators (rt:1.2.3.4:5) are not modelled and not generated; a non-ASCII filter value is refused before any parser sees it (request.rs), which the model reaches through the parsers refusing it",
     "the order of entries inside a section is not observed (sorted multiset); `sort` only reorders inside a one-element list in the code",
     "every announcement carries a unique MED, used as the identity of its attribute set in observations",
     "HTTP dispatch (method, path prefix, the 3-segment ingress-id query) belongs to C12 and is not part of the line protocol",
 ]
 
-PATHS = ["-", "65001", "65001,65002", "65002,65001", "65001,s", "65001,65002,65003", "65002"]
+# 's' = an AS_SET segment, 'n' = the AS_SEQUENCE is cut here into two segments (invisible in the hops)
+PATHS = ["-", "65001", "65001,65002", "65002,65001", "65001,s", "65001,65002,65003", "65002",
+         "65001,n,65002", "65001,65002,n,65003", "65002,n,65001", "65001,n,65002,n,65003", "s,65001", "65001,s,65002", "65001,65002,s", "4200000001,65001"]
 COMMS = ["-", "4259840100", "4259840100,4259840200", "4294967041", "4294902426", "4259840200"]
 ASNS = ["65001", "65002", "65001", "-", "x"]
 
+# ---- communities: (kind letter of the case grammar, octets as hex, the texts a filter can name it by; [] = no text reaches it)
+# kind: s COMMUNITIES(8)  e EXTENDED COMMUNITIES(16)  x IPv6 extended(25)  l LARGE_COMMUNITY(32)
+KIND_CODE = {"s": 8, "e": 16, "x": 25, "l": 32}
+CPOOL = {
+    "s": [("fde80064", ["65000:100", "AS65000:100", "0xFDE80064", "0xfde80064", "65000:0100"]),
+          ("fde800c8", ["65000:200", "as65000:200", "0xFDE800C8"]),
+          ("ffffff01", ["NO_EXPORT", "no_export", "NoExport", "65535:65281", "0xFFFFFF01", "AS65535:65281"]),
+          ("ffffff02", ["NO_ADVERTISE", "noadvertise", "65535:65282", "0xffffff02"]),
+          ("ffff029a", ["BLACKHOLE", "blackhole", "65535:666", "0xFFFF029A"]),
+          ("ffffff04", ["NOPEER", "no_peer", "65535:65284"]),
+          ("00000064", ["0:100", "0x64", "0x0000000000000064", "0x00000064"])],
+    "e": [("0002fde800000064", ["rt:65000:100", "rt:AS65000:100", "0x0002FDE800000064", "0x" + "0" * 24 + "0002FDE800000064"]),
+          ("0003fde800000064", ["ro:65000:100", "0x0003fde800000064"]),
+          ("0202fa56ea010007", ["rt:4200000001:7", "rt:as4200000001:7", "0x0202FA56EA010007"]),
+          ("0002fde8000000c8", ["rt:65000:200", "0x2FDE8000000C8"]),
+          ("43020000000000ff", ["0x43020000000000FF"]),
+          ("0000000000000064", [])],          # "0x0000000000000064" is read as the STANDARD community 0:100
+    "l": [("0000fde80000000100000002", ["65000:1:2", "AS65000:1:2", "65000:01:2"]),
+          ("000000220000010000000200", ["34:256:512", "as34:256:512"]),
+          ("fa56ea0100000000ffffffff", ["4200000001:0:4294967295"]),
+          ("0000fde80000000100000003", ["65000:1:3"])],
+    "x": [("000220010db80000000000000000000000010064", ["0x000220010db80000000000000000000000010064", "0x000220010DB80000000000000000000000010064"]),
+          ("000320010db800000000000000000000000100c8", ["0x000320010db800000000000000000000000100c8"]),
+          ("0000000000000000000000000002fde800000064", [])],   # 40 digits with leading zeros are read as an EXTENDED community
+}
+# filter text -> (kind, octets) as routecore's Community::from_str reads it (first of standard, large, extended, IPv6 extended)
+TEXT_COMM = {}
+for _k in ("x", "e", "l", "s"):
+    for _hex, _texts in CPOOL[_k]:
+        for _t in _texts:
+            TEXT_COMM[_t] = (_k, _hex)
+
+
+def gen_comms(rng):
+    """the community-carrying attributes of one announcement: (case token, [(kind, [octets])] in UPDATE order)"""
+    if rng.chance(30):
+        tok = rng.choice(COMMS)
+        return tok, ([] if tok == "-" else [("s", ["%08x" % int(c) for c in tok.split(",")])])
+    nk = rng.weighted([(1, 20), (2, 40), (3, 28), (4, 12)])
+    kinds = ["s", "e", "x", "l"]
+    for i in range(3, 0, -1):
+        j = rng.below(i + 1)
+        kinds[i], kinds[j] = kinds[j], kinds[i]
+    kinds = kinds[:nk]
+    if rng.chance(50):      # the order of the type codes (what a well-behaved speaker sends)
+        kinds.sort(key=lambda k: KIND_CODE[k])
+    if rng.chance(8):       # the same attribute twice (routecore takes it; every one of them is searched)
+        kinds.insert(rng.range(0, len(kinds)), rng.choice(kinds))
+    attrs = []
+    for k in kinds:
+        pool = [h for h, _ in CPOOL[k]]
+        n = min(len(pool), rng.weighted([(0, 4), (1, 38), (2, 34), (3, 24)]))   # 0: an attribute without members
+        members = []
+        while len(members) < n:
+            m = rng.choice(pool)
+            if m not in members:
+                members.append(m)
+        attrs.append((k, members))
+    items = [("%s=%s" % (k, ",".join(ms))) if not (k == "s" and ms and rng.chance(40)) else ",".join(str(int(m, 16)) for m in ms) for k, ms in attrs]
+    if rng.chance(30):
+        items.insert(rng.range(0, len(items)), "*")
+    return "/".join(items), attrs
+
+
+def comm_text(rng, kind, octets):
+    """a filter text that names this community; None if no text reaches it"""
+    for h, texts in CPOOL[kind]:
+        if h == octets and texts:
+            return rng.choice(texts)
+    return None
+
+
+def gen_targeted(rng, route, asns, af_tok):
+    """a query on the prefix of [route] whose filters are chosen with a known truth value FOR THAT ROUTE:
+    a community from a chosen position (first / middle / last attribute, first / last member) or one it does not carry,
+    its AS path or another, its peer's AS or another; select and discard; any / all"""
+    peer, fam, ptoken, path, cattrs = route
+    nf = rng.weighted([(1, 45), (2, 40), (3, 15)])
+    parts = []
+    want_comm = True
+    for i in range(nf):
+        kind = "community" if (i == 0 and want_comm) else rng.choice(["community", "as_path", "peer_as"])
+        truth = rng.chance(60)
+        val = None
+        if kind == "community":
+            if truth and cattrs:
+                ai = rng.choice([0, len(cattrs) - 1, len(cattrs) // 2, rng.below(len(cattrs))])
+                k, ms = cattrs[ai]
+                if ms:
+                    val = comm_text(rng, k, rng.choice([ms[0], ms[-1]]))
+            if val is None:
+                # one the route does not carry, by preference of a kind it does carry (so the attribute is there, the member not)
+                carried = {(k, m) for k, ms in cattrs for m in ms}
+                cands = [(k, h) for k in ([k for k, _ in cattrs] or ["s", "l", "e"]) for h, texts in CPOOL[k] if texts and (k, h) not in carried]
+                if not cands or rng.chance(25):
+                    cands = [(k, h) for k in CPOOL for h, texts in CPOOL[k] if texts and (k, h) not in carried]
+                k, h = rng.choice(cands)
+                val = comm_text(rng, k, h)
+        elif kind == "as_path":
+            hops = [h for h in path.split(",") if h != "n"]
+            if truth and path != "-" and "s" not in hops:
+                val = ",".join(("AS" + h) if rng.chance(15) else h for h in hops)
+            elif path != "-" and len(hops) >= 2 and "s" not in hops and rng.chance(50):
+                # almost the path: without its last hop / its first hop (what a filter that stops early would accept)
+                val = ",".join(hops[:-1] if rng.chance(50) else hops[1:])
+            else:
+                val = rng.choice(["65003", "65001,65003", "65002,65002"])
+        else:
+            a = asns[peer] if peer < len(asns) else "x"
+            val = a if (truth and a not in ("-", "x")) else "65003"
+        parts.append("%s[%s]=%s" % (rng.choice(["select", "discard"]), kind, val))
+    k = rng.below(100)
+    if k < 35:
+        parts.append("filter_op=all")
+    elif k < 60:
+        parts.append("filter_op=any")
+    if rng.chance(25):
+        parts.append("include=" + rng.choice(["lessSpecifics", "lessSpecifics,moreSpecifics", "moreSpecifics"]))
+    for i in range(len(parts) - 1, 0, -1):
+        j = rng.below(i + 1)
+        parts[i], parts[j] = parts[j], parts[i]
+    return "Q %s %s %s" % (af_tok, ptoken, "&".join(parts))
+
+
 SEL_GOOD = [
     ("as_path", "65001"), ("as_path", "65001,65002"), ("as_path", "65002,65001"), ("as_path", "AS65001,as65002"), ("as_path", "65002"),
-    ("as_path", "65001,65002,65003"), ("as_path", "+65001"), ("as_path", "065001"),
+    ("as_path", "65001,65002,65003"), ("as_path", "+65001"), ("as_path", "065001"), ("as_path", "4200000001,65001"), ("as_path", "AS4200000001,65001"),
     ("peer_as", "65001"), ("peer_as", "65002"), ("peer_as", "AS65001"), ("peer_as", "65003"),
     ("community", "65000:100"), ("community", "65000:200"), ("community", "AS65000:100"), ("community", "NO_EXPORT"), ("community", "blackhole"),
     ("community", "0xFDE80064"), ("community", "0xFFFFFF01"), ("community", "65000:100:1"), ("community", "rt:65000:100"), ("community", "NoExport"),
     ("community", "0x0002FDE800000064"), ("community", "65000:0100"),
+    ("community", "65000:1:2"), ("community", "34:256:512"), ("community", "AS65000:1:2"), ("community", "ro:65000:100"), ("community", "rt:4200000001:7"),
+    ("community", "65535:65281"), ("community", "65535:666"), ("community", "NO_ADVERTISE"), ("community", "0xFFFF029A"), ("community", "0x0000000000000064"),
+    ("community", "0x000220010db80000000000000000000000010064"), ("community", "0x0000000000000000000000000002FDE800000064"), ("community", "0:100"),
 ]
 SEL_BAD = [
     ("as_path", ""), ("as_path", "65001,"), ("as_path", "x"), ("as_path", "4294967296"), ("as_path", "65001,,65002"), ("as_path", "AS"),
@@ -185,6 +318,7 @@ def gen_case(rng, i):
     tag = 0
     nops = rng.range(len(pool), 3 * len(pool))
     announced = []
+    routes = []       # unicast announcements with what a filter can see of them
     pop = []
     for _ in range(nops):
         k = rng.below(100)
@@ -193,8 +327,12 @@ def gen_case(rng, i):
             peer = rng.below(npeers)
             fam = af + (2 if multicast and rng.chance(35) else 0)
             tag += 1
-            pop.append("A %d %d %s %d %s %s" % (peer, fam, ptok(p, v6), tag, rng.choice(PATHS), rng.choice(COMMS)))
+            path = rng.choice(PATHS)
+            ctok, cattrs = gen_comms(rng)
+            pop.append("A %d %d %s %d %s %s" % (peer, fam, ptok(p, v6), tag, path, ctok))
             announced.append((peer, fam, p))
+            if fam == af:
+                routes.append((peer, fam, ptok(p, v6), path, cattrs))
         elif k < 92:
             peer, fam, p = rng.choice(announced)
             if rng.chance(15):
@@ -227,6 +365,13 @@ def gen_case(rng, i):
         else:
             tok = ptok(q, v6)
         queries.append("Q %d %s %s" % (6 if v6 else 4, tok, gen_query_string(rng, clean=rng.chance(60))))
+    # filters with a known truth value for one stored route: a community out of EACH of its community attributes
+    # (first / middle / last attribute, first / last member), its path, its peer's AS - select and discard, any and all
+    if routes and rng.chance(70):
+        multi = [r for r in routes if len(r[4]) >= 2]
+        for _ in range(rng.range(2, 5)):
+            route = rng.choice(multi) if multi and rng.chance(75) else rng.choice(routes)
+            queries.insert(rng.range(0, len(queries)), gen_targeted(rng, route, asns, "6" if v6 else "4"))
     # reconfigurations while the API object exists (op R: the new limits go into the cell the runner shares with its
     # PrefixesApi, the API is not rebuilt), each followed by a moreSpecifics query whose length lies around the new limit:
     # the answer must follow the limits in force (C11_limit_is_current), both when they are tightened and when relaxed
@@ -282,10 +427,53 @@ def classify(case, out):
                 ks.append("q:more" + ("-nonempty" if ":m[]" not in t else "-empty"))
             if "=W" in t:
                 ks.append("q:shows-withdrawn")
+    if any(o.startswith("A ") and ",n," in o for o in case.split(";")):
+        ks.append("case:as-path-in-several-sequence-segments")
     for kw in ("select[as_path]", "select[peer_as]", "select[community]", "discard[as_path]", "discard[peer_as]", "discard[community]",
                "filter_op=all", "filter_op=any"):
         if kw in case:
             ks.append("case:" + kw)
+    # community attributes of the stored routes, and where the communities named by the filters live
+    routes = []
+    for o in case.split(";"):
+        f = o.split()
+        if f and f[0] == "A" and len(f) >= 7 and f[6] != "-":
+            attrs = []
+            for item in f[6].split("/"):
+                if item == "*":
+                    continue
+                if "=" in item:
+                    k, vals = item.split("=", 1)
+                    attrs.append((k, [v for v in vals.split(",") if v]))
+                    if not vals:
+                        ks.append("case:community-attribute-without-members")
+                else:
+                    attrs.append(("s", ["%08x" % int(c) for c in item.split(",")]))
+            routes.append(attrs)
+            if len(attrs) >= 2:
+                ks.append("case:route-with-%d-community-attributes" % len(attrs))
+                codes = [KIND_CODE[k] for k, _ in attrs]
+                if len(set(codes)) < len(codes):
+                    ks.append("case:community-attribute-twice")
+                ks.append("case:community-attributes-" + ("in-type-order" if codes == sorted(codes) else "shuffled"))
+            if f[6].split("/")[0] != "*" and "*" in f[6].split("/"):
+                ks.append("case:community-attribute-before-origin")
+            for k, _ in attrs:
+                ks.append("case:community-kind-" + k)
+    for o in case.split(";"):
+        f = o.split()
+        if f and f[0] == "Q" and len(f) >= 4:
+            for part in f[3].split("&"):
+                for mode in ("select", "discard"):
+                    pre = mode + "[community]="
+                    if part.startswith(pre) and part[len(pre):] in TEXT_COMM:
+                        k, h = TEXT_COMM[part[len(pre):]]
+                        ks.append("q:%s-community-kind-%s" % (mode, k))
+                        for attrs in routes:
+                            for ai, (ak, ms) in enumerate(attrs):
+                                if ak == k and h in ms:
+                                    pos = "only" if len(attrs) == 1 else ("first" if ai == 0 else ("last" if ai == len(attrs) - 1 else "middle"))
+                                    ks.append("q:%s-community-in-%s-attribute" % (mode, pos))
     ks.append("case:v6" if ";Q 6" in case or case.startswith("Q 6") else "case:v4")
     if any(o.startswith("A ") and o.split()[2] in ("2", "3") for o in case.split(";")):
         ks.append("case:multicast")
@@ -327,6 +515,40 @@ def corpus():
         "P 0 65001;A 0 0 0a010000/16 1 65001 -;Q 4 0a000000/8 include=moreSpecifics",
         "P 0 65001;A 0 0 0a400100/24 1 65001 -;Q 4 0a000000/10 include=moreSpecifics",
         "L 0 0;P 0 65001;A 0 0 09000100/24 1 65001 -;Q 4 0a000000/8 include=moreSpecifics",
+        # communities in more than one attribute (seeded/C11-b1): BLACKHOLE + LARGE 34:256:512 on one route, NO_EXPORT on the other
+        "P 0 65001;P 1 65002;A 0 0 c0000200/24 1 65001 s=ffff029a/l=000000220000010000000200;A 1 0 c0000200/24 2 65002 s=ffffff01;"
+        "Q 4 c0000200/24 select[community]=BLACKHOLE;Q 4 c0000200/24 select[community]=NO_EXPORT;Q 4 c0000200/24 select[community]=34:256:512;"
+        "Q 4 c0000200/24 discard[community]=34:256:512;Q 4 c0000200/24 discard[community]=BLACKHOLE;Q 4 c0000200/24 select[community]=65535:65281&select[community]=34:256:512;"
+        "Q 4 c0000200/24 select[community]=65535:65281&select[community]=34:256:512&filter_op=all;Q 4 c0000200/24 discard[community]=0xFFFF029A&discard[community]=34:256:512&filter_op=all",
+        # all four community attributes on one route, in type-code order (p0), reversed (p1), before ORIGIN (p2); a member of every
+        # attribute, first and last; names and numbers; a community nobody carries; the same octets under another kind
+        "P 0 65001;P 1 65002;P 2 65002;"
+        "A 0 0 0a000000/8 1 65001 s=ffffff01,fde80064/e=0002fde800000064,0003fde800000064/x=000220010db80000000000000000000000010064/l=0000fde80000000100000002,000000220000010000000200;"
+        "A 1 0 0a000000/8 2 65002 l=0000fde80000000100000002/x=000320010db800000000000000000000000100c8/e=0202fa56ea010007/s=fde800c8;"
+        "A 2 0 0a000000/8 3 65001,65002 l=fa56ea0100000000ffffffff/*/e=0000000000000064/4259840100;"
+        "Q 4 0a000000/8 select[community]=NO_EXPORT;Q 4 0a000000/8 select[community]=65000:100;Q 4 0a000000/8 select[community]=rt:65000:100;Q 4 0a000000/8 select[community]=ro:65000:100;"
+        "Q 4 0a000000/8 select[community]=0x000220010db80000000000000000000000010064;Q 4 0a000000/8 select[community]=65000:1:2;Q 4 0a000000/8 select[community]=34:256:512;"
+        "Q 4 0a000000/8 select[community]=65000:200;Q 4 0a000000/8 select[community]=rt:4200000001:7;Q 4 0a000000/8 select[community]=0x000320010db800000000000000000000000100c8;"
+        "Q 4 0a000000/8 select[community]=4200000001:0:4294967295;Q 4 0a000000/8 discard[community]=65000:1:2;Q 4 0a000000/8 discard[community]=AS65000:100;"
+        "Q 4 0a000000/8 select[community]=0x0000000000000064;Q 4 0a000000/8 select[community]=0:100;Q 4 0a000000/8 select[community]=65000:1:3;Q 4 0a000000/8 discard[community]=65000:1:3;"
+        "Q 4 0a000000/8 select[community]=0x0000000000000000000000000002FDE800000064;Q 4 0a000000/8 select[community]=0x0002FDE800000064",
+        # an attribute without members / the same attribute twice in front of the one that has the community
+        "P 0 65001;A 0 0 0a000000/8 1 65001 l=/s=fde80064;A 0 0 0a000000/9 2 65001 s=ffffff01/e=0002fde800000064/s=fde80064;Q 4 0a000000/8 select[community]=65000:100;"
+        "Q 4 0a000000/8 discard[community]=65000:100;Q 4 0a000000/9 select[community]=65000:100;Q 4 0a000000/9 discard[community]=65000:100;Q 4 0a000000/9 select[community]=NO_EXPORT",
+        # a community of the LAST attribute together with the other filter kinds: every kind true and false, select / discard, any / all
+        "P 0 65001;P 1 65002;A 0 0 0a000000/8 1 65001,65002 4294967041/e=0002fde800000064/l=0000fde80000000100000002;A 1 0 0a000000/8 2 65002 e=0003fde800000064/4259840100;"
+        "Q 4 0a000000/8 select[community]=65000:1:2&select[as_path]=65001,65002&filter_op=all;Q 4 0a000000/8 select[community]=65000:1:2&select[as_path]=65002&filter_op=all;"
+        "Q 4 0a000000/8 select[community]=65000:1:3&select[as_path]=65001,65002&filter_op=all;Q 4 0a000000/8 select[community]=65000:1:3&select[as_path]=65001,65002&filter_op=any;"
+        "Q 4 0a000000/8 select[community]=65000:1:2&select[peer_as]=65002&filter_op=any;Q 4 0a000000/8 select[community]=65000:1:2&select[peer_as]=65002&filter_op=all;"
+        "Q 4 0a000000/8 discard[community]=65000:1:2&discard[peer_as]=65001&filter_op=all;Q 4 0a000000/8 discard[community]=65000:1:2&discard[peer_as]=65002&filter_op=all;"
+        "Q 4 0a000000/8 discard[community]=65000:1:2&discard[peer_as]=65002&filter_op=any;Q 4 0a000000/8 select[peer_as]=65001&discard[community]=65000:1:2;"
+        "Q 4 0a000000/8 select[community]=65000:100&discard[community]=ro:65000:100;Q 4 0a000000/8 select[community]=65000:100&discard[community]=rt:65000:100;"
+        "Q 4 0a000000/8 select[as_path]=65002&select[community]=65000:100&discard[peer_as]=65001&filter_op=all",
+        # the AS path filter sees the whole path: cut into two / three AS_SEQUENCE segments, an AS_SET in front / in the middle / at the end
+        "P 0 65001;P 1 65002;P 2 65002;P 3 65001;A 0 0 0a000000/8 1 65001,n,65002 -;A 1 0 0a000000/8 2 65001,65002 -;A 2 0 0a000000/8 3 65001,s,65002 -;A 3 0 0a000000/8 4 65001,n,65002,n,65003 -;"
+        "A 4 0 0a000000/8 5 s,65001 -;A 5 0 0a000000/8 6 65001,65002,s -;"
+        "Q 4 0a000000/8 select[as_path]=65001,65002;Q 4 0a000000/8 select[as_path]=65001;Q 4 0a000000/8 discard[as_path]=65001,65002;Q 4 0a000000/8 select[as_path]=65001,65002,65003;"
+        "Q 4 0a000000/8 select[as_path]=65002;Q 4 0a000000/8 discard[as_path]=65001;Q 4 0a000000/8 select[as_path]=65001,65002&select[as_path]=65001,65002,65003",
         # regression of the two repaired defects: community filter, non-ASCII AS number
         "P 0 65001;A 0 0 0a000000/8 1 65001 4259840100;Q 4 0a000000/8 select[community]=65000:100;Q 4 0a000000/8 discard[community]=65000:100;Q 4 0a000000/8 select[peer_as]=%E2%82%AC;Q 4 0a000000/8 discard[as_path]=65001,%E2%82%AC",
     ]
